@@ -39,7 +39,7 @@ type Scope struct {
 	mu         sync.Mutex
 	parent     app.Scope
 	sid        string
-	wg         sync.WaitGroup
+	wg         taskCounter
 }
 
 // New create new instance of scope
